@@ -1,8 +1,983 @@
-//! IO workloads, generic over the message type (filled in by the IO engines).
-use crate::shape::Shape;
+//! IO workloads, generic over the message type: scripted blocking pipes,
+//! a bounded in-memory async duplex with a manual executor, monitored buffer
+//! wrappers.  The engines in `engines/io.rs` build the cases and judge the
+//! traces; this file only runs the real flatty-io code and records what
+//! happened at its public boundaries.
 
-pub struct IoVT {}
+use crate::model::Value;
+use crate::shape::{Kont, Shape};
+use flatty::{Emplacer, Error};
+use flatty_io::{AsyncReadBuffer, AsyncReceiver, AsyncSender, IoBuffer, ReadBuffer, Receiver, RecvError, Sender};
+use futures::io::{AsyncRead, AsyncWrite};
+use std::cell::RefCell;
+use std::future::Future;
+use std::io;
+use std::ops::Deref;
+use std::pin::Pin;
+use std::rc::Rc;
+use std::sync::atomic::{AtomicBool, Ordering};
+use std::sync::Arc;
+use std::task::{Context, Poll, Wake, Waker};
+
+pub const BREAKER_MARK: &str = "harness-breaker: pipe call bound exceeded";
+
+#[derive(Clone, Copy, Debug, PartialEq, Eq)]
+pub enum FaultKind {
+    Err(io::ErrorKind),
+    /// write returning Ok(0) / read returning Ok(0) (end of stream)
+    Zero,
+}
+
+#[derive(Clone, Debug)]
+pub struct Fault {
+    /// byte position of the stream at which the fault is injected
+    pub at: usize,
+    pub kind: FaultKind,
+    /// how many consecutive calls fail (usize::MAX = persistent)
+    pub times: usize,
+}
+
+#[derive(Clone, Debug, Default)]
+pub struct PipeLog {
+    pub calls: usize,
+    pub write_calls: usize,
+    pub read_calls: usize,
+    pub flush_calls: usize,
+    pub faults_injected: usize,
+    pub calls_after_first_fault: usize,
+    pub write_calls_after_first_fault: usize,
+    pub breaker: bool,
+    /// (offered length, accepted / delivered length or -1 for error / -2 pending)
+    pub events: Vec<(char, usize, isize)>,
+}
+
+pub struct PipeState {
+    pub data: Vec<u8>,
+    pub rpos: usize,
+    pub chunks: Vec<usize>,
+    pub chunk_i: usize,
+    pub fault: Option<Fault>,
+    pub fault_left: usize,
+    pub max_calls: usize,
+    pub log: PipeLog,
+    // async only
+    pub capacity: usize,
+    pub closed: bool,
+    pub pend: Vec<u8>,
+    pub pend_i: usize,
+    pub read_waker: Option<Waker>,
+    pub write_waker: Option<Waker>,
+    pub flush_pending_left: usize,
+}
+
+impl PipeState {
+    pub fn new(data: Vec<u8>, chunks: Vec<usize>, fault: Option<Fault>, max_calls: usize) -> PipeState {
+        let fl = fault.as_ref().map_or(0, |f| f.times);
+        PipeState {
+            data,
+            rpos: 0,
+            chunks,
+            chunk_i: 0,
+            fault,
+            fault_left: fl,
+            max_calls,
+            log: PipeLog::default(),
+            capacity: usize::MAX,
+            closed: false,
+            pend: Vec::new(),
+            pend_i: 0,
+            read_waker: None,
+            write_waker: None,
+            flush_pending_left: 0,
+        }
+    }
+    fn next_chunk(&mut self, offered: usize) -> usize {
+        let c = if self.chunks.is_empty() {
+            offered
+        } else {
+            let c = self.chunks[self.chunk_i % self.chunks.len()];
+            self.chunk_i += 1;
+            c
+        };
+        c.max(1).min(offered)
+    }
+    fn tick(&mut self) {
+        self.log.calls += 1;
+        if self.log.faults_injected > 0 {
+            self.log.calls_after_first_fault += 1;
+        }
+        if self.log.calls > self.max_calls {
+            self.log.breaker = true;
+            panic!("{}", BREAKER_MARK);
+        }
+    }
+    /// fault to inject at stream position `pos`, if any
+    fn fault_at(&mut self, pos: usize) -> Option<FaultKind> {
+        let f = self.fault.as_ref()?;
+        if pos == f.at && self.fault_left > 0 {
+            if self.fault_left != usize::MAX {
+                self.fault_left -= 1;
+            }
+            self.log.faults_injected += 1;
+            return Some(f.kind);
+        }
+        None
+    }
+    fn next_pend(&mut self) -> bool {
+        if self.pend_i < self.pend.len() {
+            let b = self.pend[self.pend_i];
+            self.pend_i += 1;
+            b != 0
+        } else {
+            false
+        }
+    }
+}
+
+pub type Shared = Rc<RefCell<PipeState>>;
+
+// ---------------------------------------------------------------------------
+// blocking pipes
+
+pub struct ScriptedWriter(pub Shared);
+pub struct ScriptedReader(pub Shared);
+
+impl io::Write for ScriptedWriter {
+    fn write(&mut self, buf: &[u8]) -> io::Result<usize> {
+        let mut s = self.0.borrow_mut();
+        s.tick();
+        s.log.write_calls += 1;
+        if s.log.faults_injected > 0 {
+            s.log.write_calls_after_first_fault += 1;
+        }
+        let pos = s.data.len();
+        if let Some(k) = s.fault_at(pos) {
+            s.log.events.push(('w', buf.len(), -1));
+            return match k {
+                FaultKind::Err(e) => Err(e.into()),
+                FaultKind::Zero => Ok(0),
+            };
+        }
+        if buf.is_empty() {
+            s.log.events.push(('w', 0, 0));
+            return Ok(0);
+        }
+        let mut k = s.next_chunk(buf.len());
+        // never run over the fault position: the fault must hit exactly at its byte
+        if let Some(f) = &s.fault {
+            if s.fault_left > 0 && f.at > pos {
+                k = k.min(f.at - pos);
+            }
+        }
+        s.data.extend_from_slice(&buf[..k]);
+        s.log.events.push(('w', buf.len(), k as isize));
+        Ok(k)
+    }
+    fn flush(&mut self) -> io::Result<()> {
+        let mut s = self.0.borrow_mut();
+        s.log.flush_calls += 1;
+        Ok(())
+    }
+}
+
+impl io::Read for ScriptedReader {
+    fn read(&mut self, buf: &mut [u8]) -> io::Result<usize> {
+        let mut s = self.0.borrow_mut();
+        s.tick();
+        s.log.read_calls += 1;
+        let pos = s.rpos;
+        if let Some(k) = s.fault_at(pos) {
+            s.log.events.push(('r', buf.len(), -1));
+            return match k {
+                FaultKind::Err(e) => Err(e.into()),
+                FaultKind::Zero => Ok(0),
+            };
+        }
+        let left = s.data.len() - pos;
+        if left == 0 || buf.is_empty() {
+            s.log.events.push(('r', buf.len(), 0));
+            return Ok(0);
+        }
+        let mut k = s.next_chunk(buf.len().min(left));
+        if let Some(f) = &s.fault {
+            if s.fault_left > 0 && f.at > pos {
+                k = k.min(f.at - pos);
+            }
+        }
+        buf[..k].copy_from_slice(&s.data[pos..pos + k]);
+        s.rpos += k;
+        s.log.events.push(('r', buf.len(), k as isize));
+        Ok(k)
+    }
+}
+
+// ---------------------------------------------------------------------------
+// monitored read buffer (observes the window at the ReadBuffer trait boundary)
+
+#[derive(Clone, Debug, Default)]
+pub struct MonLog {
+    /// (skip count, occupied length before the skip)
+    pub skips: Vec<(usize, usize)>,
+    pub reads: Vec<isize>,
+    pub received: usize,
+    pub skipped: usize,
+    pub misaligned_windows: usize,
+}
+
+pub struct Mon<B> {
+    pub inner: B,
+    pub log: Rc<RefCell<MonLog>>,
+    pub align: usize,
+}
+impl<B: Deref<Target = [u8]>> Deref for Mon<B> {
+    type Target = [u8];
+    fn deref(&self) -> &[u8] {
+        &self.inner
+    }
+}
+impl<B: ReadBuffer> ReadBuffer for Mon<B> {
+    type Error = B::Error;
+    fn read(&mut self) -> Result<usize, Self::Error> {
+        let r = self.inner.read();
+        let mut l = self.log.borrow_mut();
+        match &r {
+            Ok(n) => {
+                l.reads.push(*n as isize);
+                l.received += *n;
+            }
+            Err(_) => l.reads.push(-1),
+        }
+        if !self.inner.is_empty() && (self.inner.as_ptr() as usize) % self.align != 0 {
+            l.misaligned_windows += 1;
+        }
+        r
+    }
+    fn skip(&mut self, count: usize) {
+        {
+            let mut l = self.log.borrow_mut();
+            l.skips.push((count, self.inner.len()));
+            l.skipped += count;
+        }
+        self.inner.skip(count)
+    }
+}
+impl<B: AsyncReadBuffer> AsyncReadBuffer for Mon<B> {
+    type Error = B::Error;
+    fn poll_read(mut self: Pin<&mut Self>, cx: &mut Context<'_>) -> Poll<Result<usize, Self::Error>> {
+        let r = Pin::new(&mut self.inner).poll_read(cx);
+        let mut l = self.log.borrow_mut();
+        match &r {
+            Poll::Ready(Ok(n)) => {
+                l.reads.push(*n as isize);
+                l.received += *n;
+            }
+            Poll::Ready(Err(_)) => l.reads.push(-1),
+            Poll::Pending => l.reads.push(-2),
+        }
+        if !self.inner.is_empty() && (self.inner.as_ptr() as usize) % self.align != 0 {
+            l.misaligned_windows += 1;
+        }
+        r
+    }
+    fn skip(&mut self, count: usize) {
+        {
+            let mut l = self.log.borrow_mut();
+            l.skips.push((count, self.inner.len()));
+            l.skipped += count;
+        }
+        self.inner.skip(count)
+    }
+}
+
+// ---------------------------------------------------------------------------
+// traces
+
+#[derive(Clone, Debug, PartialEq)]
+pub enum RecvEvent {
+    /// a message was handed out: content, size(), length of the occupied window, address % ALIGN, own bytes validate
+    Msg { value: Value, size: usize, window: usize, misaligned: bool, valid: bool },
+    Parse(String),
+    Read(String),
+    Closed,
+    /// dropping the guard (or anything inside recv) panicked
+    Panic(String),
+}
+
+#[derive(Clone, Debug, Default)]
+pub struct IoTrace {
+    /// per message: Ok / Err(text) ("emplace: .." when the message could not be constructed)
+    pub sends: Vec<Result<(), String>>,
+    pub send_panic: Option<String>,
+    pub recvs: Vec<RecvEvent>,
+    pub sink: Vec<u8>,
+    pub wlog: PipeLog,
+    pub rlog: PipeLog,
+    pub mon: MonLog,
+    pub polls: usize,
+    pub deadlock: bool,
+    pub poll_bound_hit: bool,
+    /// async: (message index, a Ready flush was seen after its last accepted byte)
+    pub flushed_before_done: Vec<bool>,
+}
+
+#[derive(Clone, Debug)]
+pub struct IoCase {
+    pub msgs: Vec<(Value, u64)>,
+    pub max_msg_len: usize,
+    pub wchunks: Vec<usize>,
+    pub rchunks: Vec<usize>,
+    pub wfault: Option<Fault>,
+    pub rfault: Option<Fault>,
+    pub monitored: bool,
+    /// bytes fed to the receiver instead of what the sender produced (C10)
+    pub stream: Option<Vec<u8>>,
+    /// how many times a failed recv is retried (C09)
+    pub recv_retries: usize,
+    /// keep sending after a failed send (C09)
+    pub send_after_error: bool,
+    pub max_calls: usize,
+    // async
+    pub capacity: usize,
+    pub schedule: Vec<u8>,
+    pub pend_w: Vec<u8>,
+    pub pend_r: Vec<u8>,
+    pub wake_driven: bool,
+    pub max_polls: usize,
+    pub flush_pending: usize,
+    pub max_recvs: usize,
+}
+
+struct BGuardK<'a, M: Shape + ?Sized, B: flatty_io::WriteBuffer>(flatty_io::blocking::UninitSendGuard<'a, M, B>);
+impl<'a, M: Shape + ?Sized, B: flatty_io::WriteBuffer> Kont<M> for BGuardK<'a, M, B> {
+    type Out = Result<flatty_io::blocking::SendGuard<'a, M, B>, Error>;
+    fn call<E: Emplacer<M>>(self, e: E) -> Self::Out {
+        self.0.new_in_place(e)
+    }
+}
+struct AGuardK<'a, M: Shape + ?Sized, B: flatty_io::AsyncWriteBuffer>(flatty_io::async_::UninitSendGuard<'a, M, B>);
+impl<'a, M: Shape + ?Sized, B: flatty_io::AsyncWriteBuffer> Kont<M> for AGuardK<'a, M, B> {
+    type Out = Result<flatty_io::async_::SendGuard<'a, M, B>, Error>;
+    fn call<E: Emplacer<M>>(self, e: E) -> Self::Out {
+        self.0.new_in_place(e)
+    }
+}
+
+fn is_breaker(p: &str) -> bool {
+    p.contains("harness-breaker")
+}
+
+fn observe<M: Shape + ?Sized>(m: &M, window: usize) -> RecvEvent {
+    let addr = m as *const M as *const u8 as usize;
+    let size = flatty::traits::FlatBase::size(m);
+    let valid = M::validate(m.as_bytes()).is_ok();
+    RecvEvent::Msg { value: m.read(), size, window, misaligned: addr % M::ALIGN != 0, valid }
+}
+
+// ---------------------------------------------------------------------------
+// blocking run: sender first (into the sink), then receiver (from the sink or from `stream`)
+
+pub fn run_blocking<M: Shape + ?Sized>(c: &IoCase) -> IoTrace {
+    let mut t = IoTrace::default();
+    // ---- sender
+    let wstate: Shared = Rc::new(RefCell::new(PipeState::new(Vec::new(), c.wchunks.clone(), c.wfault.clone(), c.max_calls)));
+    if c.stream.is_none() {
+        let ws = wstate.clone();
+        let sends_cell: RefCell<Vec<Result<(), String>>> = RefCell::new(Vec::new());
+        let r = crate::engine::guarded(|| {
+            let sends = &sends_cell;
+            let mut sender = Sender::<M, _>::io(ScriptedWriter(ws), c.max_msg_len);
+            for (v, style) in &c.msgs {
+                let guard = match sender.alloc() {
+                    Ok(g) => g,
+                    Err(e) => {
+                        sends.borrow_mut().push(Err(format!("alloc: {:?}", e.kind())));
+                        break;
+                    }
+                };
+                let res = match M::with_emp(v, *style, BGuardK(guard)) {
+                    Err(e) => Err(format!("emplace: {:?}", e)),
+                    Ok(g) => g.send().map_err(|e| format!("io: {:?}", e.kind())),
+                };
+                let failed = res.is_err();
+                sends.borrow_mut().push(res);
+                if failed && !c.send_after_error {
+                    break;
+                }
+            }
+        });
+        t.sends = sends_cell.borrow().clone();
+        if let Err(p) = r {
+            t.send_panic = Some(p);
+        }
+    }
+    {
+        let s = wstate.borrow();
+        t.sink = s.data.clone();
+        t.wlog = s.log.clone();
+    }
+    // ---- receiver
+    let source = c.stream.clone().unwrap_or_else(|| t.sink.clone());
+    let rstate: Shared = Rc::new(RefCell::new(PipeState::new(source, c.rchunks.clone(), c.rfault.clone(), c.max_calls)));
+    let monlog = Rc::new(RefCell::new(MonLog::default()));
+    let rs = rstate.clone();
+    let ml = monlog.clone();
+    let mut events: Vec<RecvEvent> = Vec::new();
+    let r = crate::engine::guarded(|| {
+        macro_rules! recv_loop {
+            ($receiver:expr) => {{
+                let mut retries = c.recv_retries;
+                let mut n = 0;
+                loop {
+                    n += 1;
+                    if n > c.max_recvs {
+                        break;
+                    }
+                    match $receiver.recv() {
+                        Ok(guard) => {
+                            let window = guard_window(&*guard);
+                            events.push(observe::<M>(&*guard, window));
+                            drop(guard);
+                        }
+                        Err(RecvError::Closed) => {
+                            events.push(RecvEvent::Closed);
+                            break;
+                        }
+                        Err(RecvError::Parse(e)) => {
+                            events.push(RecvEvent::Parse(format!("{:?}@{}", e.kind, e.pos)));
+                            break;
+                        }
+                        Err(RecvError::Read(e)) => {
+                            events.push(RecvEvent::Read(format!("{:?}", e.kind())));
+                            if retries == 0 {
+                                break;
+                            }
+                            retries -= 1;
+                        }
+                    }
+                }
+            }};
+        }
+        if c.monitored {
+            let cap = 2 * c.max_msg_len.max(M::MIN_SIZE);
+            let buf = Mon { inner: IoBuffer::new(ScriptedReader(rs), cap, M::ALIGN), log: ml, align: M::ALIGN };
+            let mut receiver = Receiver::<M, _>::new(buf);
+            recv_loop!(receiver);
+        } else {
+            let mut receiver = Receiver::<M, _>::io(ScriptedReader(rs), c.max_msg_len);
+            recv_loop!(receiver);
+        }
+    });
+    if let Err(p) = r {
+        events.push(RecvEvent::Panic(p));
+    }
+    t.recvs = events;
+    t.rlog = rstate.borrow().log.clone();
+    t.mon = monlog.borrow().clone();
+    t
+}
+
+fn guard_window<M: Shape + ?Sized>(m: &M) -> usize {
+    // the guard derefs to the message mapped on the whole occupied window; its as_bytes() length is
+    // what the value covers of it
+    m.as_bytes().len()
+}
+
+// ---------------------------------------------------------------------------
+// async duplex
+
+pub struct AsyncW(pub Shared);
+pub struct AsyncR(pub Shared);
+
+impl AsyncWrite for AsyncW {
+    fn poll_write(self: Pin<&mut Self>, cx: &mut Context<'_>, buf: &[u8]) -> Poll<io::Result<usize>> {
+        let mut s = self.0.borrow_mut();
+        s.tick();
+        s.log.write_calls += 1;
+        if s.log.faults_injected > 0 {
+            s.log.write_calls_after_first_fault += 1;
+        }
+        // injected (spurious but honest) Pending: the task is woken immediately
+        if s.next_pend() {
+            s.log.events.push(('w', buf.len(), -2));
+            cx.waker().wake_by_ref();
+            return Poll::Pending;
+        }
+        let written = s.data.len();
+        if let Some(k) = s.fault_at(written) {
+            s.log.events.push(('w', buf.len(), -1));
+            return Poll::Ready(match k {
+                FaultKind::Err(e) => Err(e.into()),
+                FaultKind::Zero => Ok(0),
+            });
+        }
+        if buf.is_empty() {
+            s.log.events.push(('w', 0, 0));
+            return Poll::Ready(Ok(0));
+        }
+        let in_flight = written - s.rpos;
+        if in_flight >= s.capacity {
+            // genuinely full: wait for the reader
+            s.write_waker = Some(cx.waker().clone());
+            s.log.events.push(('w', buf.len(), -2));
+            return Poll::Pending;
+        }
+        let room = s.capacity - in_flight;
+        let mut k = s.next_chunk(buf.len().min(room));
+        if let Some(f) = &s.fault {
+            if s.fault_left > 0 && f.at > written {
+                k = k.min(f.at - written);
+            }
+        }
+        s.data.extend_from_slice(&buf[..k]);
+        s.log.events.push(('w', buf.len(), k as isize));
+        if let Some(w) = s.read_waker.take() {
+            w.wake();
+        }
+        Poll::Ready(Ok(k))
+    }
+    fn poll_flush(self: Pin<&mut Self>, cx: &mut Context<'_>) -> Poll<io::Result<()>> {
+        let mut s = self.0.borrow_mut();
+        s.tick();
+        s.log.flush_calls += 1;
+        if s.flush_pending_left > 0 {
+            s.flush_pending_left -= 1;
+            s.log.events.push(('f', 0, -2));
+            cx.waker().wake_by_ref();
+            return Poll::Pending;
+        }
+        s.log.events.push(('f', 0, 0));
+        Poll::Ready(Ok(()))
+    }
+    fn poll_close(self: Pin<&mut Self>, _cx: &mut Context<'_>) -> Poll<io::Result<()>> {
+        let mut s = self.0.borrow_mut();
+        s.closed = true;
+        if let Some(w) = s.read_waker.take() {
+            w.wake();
+        }
+        Poll::Ready(Ok(()))
+    }
+}
+
+impl Drop for AsyncW {
+    fn drop(&mut self) {
+        // dropping the write half closes the pipe (like the ring buffers the repo's tests use)
+        if let Ok(mut s) = self.0.try_borrow_mut() {
+            s.closed = true;
+            if let Some(w) = s.read_waker.take() {
+                w.wake();
+            }
+        }
+    }
+}
+
+pub struct AsyncRState {
+    pub shared: Shared,
+    /// separate script of injected Pendings and chunk sizes for the read side
+    pub pend: Vec<u8>,
+    pub pend_i: usize,
+    pub chunks: Vec<usize>,
+    pub chunk_i: usize,
+    pub fault: Option<Fault>,
+    pub fault_left: usize,
+}
+
+impl AsyncRead for AsyncRState {
+    fn poll_read(mut self: Pin<&mut Self>, cx: &mut Context<'_>, buf: &mut [u8]) -> Poll<io::Result<usize>> {
+        let this = &mut *self;
+        let mut s = this.shared.borrow_mut();
+        s.tick();
+        s.log.read_calls += 1;
+        if this.pend_i < this.pend.len() {
+            let b = this.pend[this.pend_i];
+            this.pend_i += 1;
+            if b != 0 {
+                s.log.events.push(('r', buf.len(), -2));
+                cx.waker().wake_by_ref();
+                return Poll::Pending;
+            }
+        }
+        let pos = s.rpos;
+        if let Some(f) = &this.fault {
+            if pos == f.at && this.fault_left > 0 {
+                if this.fault_left != usize::MAX {
+                    this.fault_left -= 1;
+                }
+                s.log.faults_injected += 1;
+                s.log.events.push(('r', buf.len(), -1));
+                return Poll::Ready(match f.kind {
+                    FaultKind::Err(e) => Err(e.into()),
+                    FaultKind::Zero => Ok(0),
+                });
+            }
+        }
+        let left = s.data.len() - pos;
+        if left == 0 {
+            if s.closed {
+                s.log.events.push(('r', buf.len(), 0));
+                return Poll::Ready(Ok(0));
+            }
+            s.read_waker = Some(cx.waker().clone());
+            s.log.events.push(('r', buf.len(), -2));
+            return Poll::Pending;
+        }
+        if buf.is_empty() {
+            return Poll::Ready(Ok(0));
+        }
+        let offered = buf.len().min(left);
+        let mut k = if this.chunks.is_empty() {
+            offered
+        } else {
+            let c = this.chunks[this.chunk_i % this.chunks.len()];
+            this.chunk_i += 1;
+            c.max(1).min(offered)
+        };
+        if let Some(f) = &this.fault {
+            if this.fault_left > 0 && f.at > pos {
+                k = k.min(f.at - pos);
+            }
+        }
+        buf[..k].copy_from_slice(&s.data[pos..pos + k]);
+        s.rpos += k;
+        s.log.events.push(('r', buf.len(), k as isize));
+        if let Some(w) = s.write_waker.take() {
+            w.wake();
+        }
+        Poll::Ready(Ok(k))
+    }
+}
+
+struct Flag(AtomicBool);
+impl Wake for Flag {
+    fn wake(self: Arc<Self>) {
+        self.0.store(true, Ordering::SeqCst);
+    }
+    fn wake_by_ref(self: &Arc<Self>) {
+        self.0.store(true, Ordering::SeqCst);
+    }
+}
+
+pub fn run_async<M: Shape + ?Sized>(c: &IoCase) -> IoTrace {
+    let mut t = IoTrace::default();
+    let state: Shared = Rc::new(RefCell::new(PipeState::new(Vec::new(), c.wchunks.clone(), c.wfault.clone(), c.max_calls)));
+    {
+        let mut s = state.borrow_mut();
+        s.capacity = c.capacity.max(1);
+        s.pend = c.pend_w.clone();
+        s.flush_pending_left = c.flush_pending;
+        if let Some(st) = &c.stream {
+            // C10: the peer's bytes are already in flight and the write side is closed
+            s.data = st.clone();
+            s.capacity = usize::MAX;
+            s.closed = true;
+        }
+    }
+    let sends: Rc<RefCell<Vec<Result<(), String>>>> = Rc::new(RefCell::new(Vec::new()));
+    let done_marks: Rc<RefCell<Vec<usize>>> = Rc::new(RefCell::new(Vec::new())); // index into wlog.events at which each send completed
+    let events: Rc<RefCell<Vec<RecvEvent>>> = Rc::new(RefCell::new(Vec::new()));
+    let monlog = Rc::new(RefCell::new(MonLog::default()));
+
+    let r = crate::engine::guarded(|| {
+        let ws = state.clone();
+        let sends2 = sends.clone();
+        let marks2 = done_marks.clone();
+        let msgs = c.msgs.clone();
+        let max = c.max_msg_len;
+        let send_after_error = c.send_after_error;
+        let skip_sender = c.stream.is_some();
+        let sender_task = async move {
+            if skip_sender {
+                return;
+            }
+            let log_state = ws.clone();
+            let mut sender = AsyncSender::<M, _>::io(AsyncW(ws), max);
+            for (v, style) in msgs.iter() {
+                let guard = match sender.alloc().await {
+                    Ok(g) => g,
+                    Err(e) => {
+                        sends2.borrow_mut().push(Err(format!("alloc: {:?}", e.kind())));
+                        break;
+                    }
+                };
+                let res = match M::with_emp(v, *style, AGuardK(guard)) {
+                    Err(e) => Err(format!("emplace: {:?}", e)),
+                    Ok(g) => g.send().await.map_err(|e| format!("io: {:?}", e.kind())),
+                };
+                marks2.borrow_mut().push(log_state.borrow().log.events.len());
+                let failed = res.is_err();
+                sends2.borrow_mut().push(res);
+                if failed && !send_after_error {
+                    break;
+                }
+            }
+            // dropping the sender closes the pipe
+        };
+        let rs = state.clone();
+        let ev2 = events.clone();
+        let ml = monlog.clone();
+        let rchunks = c.rchunks.clone();
+        let pend_r = c.pend_r.clone();
+        let rfault = c.rfault.clone();
+        let monitored = c.monitored;
+        let mut retries = c.recv_retries;
+        let max_recvs = c.max_recvs;
+        let receiver_task = async move {
+            let fl = rfault.as_ref().map_or(0, |f| f.times);
+            let pipe = AsyncRState { shared: rs, pend: pend_r, pend_i: 0, chunks: rchunks, chunk_i: 0, fault: rfault, fault_left: fl };
+            macro_rules! recv_loop {
+                ($receiver:expr) => {{
+                    let mut n = 0;
+                    loop {
+                        n += 1;
+                        if n > max_recvs {
+                            break;
+                        }
+                        match $receiver.recv().await {
+                            Ok(guard) => {
+                                let window = guard_window(&*guard);
+                                ev2.borrow_mut().push(observe::<M>(&*guard, window));
+                                drop(guard);
+                            }
+                            Err(RecvError::Closed) => {
+                                ev2.borrow_mut().push(RecvEvent::Closed);
+                                break;
+                            }
+                            Err(RecvError::Parse(e)) => {
+                                ev2.borrow_mut().push(RecvEvent::Parse(format!("{:?}@{}", e.kind, e.pos)));
+                                break;
+                            }
+                            Err(RecvError::Read(e)) => {
+                                ev2.borrow_mut().push(RecvEvent::Read(format!("{:?}", e.kind())));
+                                if retries == 0 {
+                                    break;
+                                }
+                                retries -= 1;
+                            }
+                        }
+                    }
+                }};
+            }
+            if monitored {
+                let cap = 2 * max.max(M::MIN_SIZE);
+                let buf = Mon { inner: IoBuffer::new(pipe, cap, M::ALIGN), log: ml, align: M::ALIGN };
+                let mut receiver = AsyncReceiver::<M, _>::new(buf);
+                recv_loop!(receiver);
+            } else {
+                let mut receiver = AsyncReceiver::<M, _>::io(pipe, max);
+                recv_loop!(receiver);
+            }
+        };
+        // ---- manual executor
+        let mut tasks: Vec<Option<Pin<Box<dyn Future<Output = ()>>>>> = vec![Some(Box::pin(sender_task)), Some(Box::pin(receiver_task))];
+        let flags = [Arc::new(Flag(AtomicBool::new(true))), Arc::new(Flag(AtomicBool::new(true)))];
+        let wakers = [Waker::from(flags[0].clone()), Waker::from(flags[1].clone())];
+        let mut polls = 0usize;
+        let mut si = 0usize;
+        let mut deadlock = false;
+        let mut bound_hit = false;
+        while tasks.iter().any(|t| t.is_some()) {
+            if polls >= c.max_polls {
+                bound_hit = true;
+                break;
+            }
+            // choose a task
+            let want = if si < c.schedule.len() {
+                let w = (c.schedule[si] % 2) as usize;
+                si += 1;
+                w
+            } else {
+                polls % 2
+            };
+            let pick = if c.wake_driven {
+                // only tasks whose waker fired may be polled
+                let cands: Vec<usize> = (0..2).filter(|i| tasks[*i].is_some() && flags[*i].0.load(Ordering::SeqCst)).collect();
+                if cands.is_empty() {
+                    deadlock = true;
+                    break;
+                }
+                if cands.contains(&want) {
+                    want
+                } else {
+                    cands[0]
+                }
+            } else if tasks[want].is_some() {
+                want
+            } else {
+                1 - want
+            };
+            flags[pick].0.store(false, Ordering::SeqCst);
+            let mut cx = Context::from_waker(&wakers[pick]);
+            polls += 1;
+            let fut = tasks[pick].as_mut().unwrap();
+            if let Poll::Ready(()) = fut.as_mut().poll(&mut cx) {
+                tasks[pick] = None;
+            }
+        }
+        (polls, deadlock, bound_hit)
+    });
+    match r {
+        Ok((p, d, b)) => {
+            t.polls = p;
+            t.deadlock = d;
+            t.poll_bound_hit = b;
+        }
+        Err(p) => {
+            if events.borrow().iter().all(|e| !matches!(e, RecvEvent::Panic(_))) {
+                events.borrow_mut().push(RecvEvent::Panic(p));
+            }
+        }
+    }
+    t.sends = sends.borrow().clone();
+    t.recvs = events.borrow().clone();
+    {
+        let s = state.borrow();
+        t.sink = s.data.clone();
+        t.wlog = s.log.clone();
+        t.rlog = s.log.clone();
+    }
+    t.mon = monlog.borrow().clone();
+    // flush discipline: before each send completed, a Ready flush must follow its last accepted write
+    let marks = done_marks.borrow();
+    let mut start = 0usize;
+    for (i, m) in marks.iter().enumerate() {
+        let ok_send = matches!(t.sends.get(i), Some(Ok(())));
+        if ok_send {
+            let evs = &t.wlog.events[start.min(*m)..*m];
+            let last_w = evs.iter().rposition(|e| e.0 == 'w' && e.2 > 0);
+            let flushed = match last_w {
+                Some(lw) => evs[lw..].iter().any(|e| e.0 == 'f' && e.2 == 0),
+                None => evs.iter().any(|e| e.0 == 'f' && e.2 == 0),
+            };
+            t.flushed_before_done.push(flushed);
+        }
+        start = *m;
+    }
+    let _ = is_breaker;
+    t
+}
+
+// ---------------------------------------------------------------------------
+// threaded blocking run (two real threads over a Mutex+Condvar pipe)
+
+pub struct TPipe {
+    pub buf: std::sync::Mutex<(std::collections::VecDeque<u8>, bool)>,
+    pub cv: std::sync::Condvar,
+    pub cap: usize,
+}
+pub struct TWriter(pub Arc<TPipe>, pub Vec<usize>, pub usize);
+pub struct TReader(pub Arc<TPipe>, pub Vec<usize>, pub usize);
+impl io::Write for TWriter {
+    fn write(&mut self, b: &[u8]) -> io::Result<usize> {
+        if b.is_empty() {
+            return Ok(0);
+        }
+        let mut g = self.0.buf.lock().unwrap();
+        while g.0.len() >= self.0.cap {
+            g = self.0.cv.wait(g).unwrap();
+        }
+        let lim = if self.1.is_empty() { b.len() } else { self.1[self.2 % self.1.len()].max(1) };
+        self.2 += 1;
+        let k = b.len().min(self.0.cap - g.0.len()).min(lim);
+        g.0.extend(b[..k].iter().copied());
+        self.0.cv.notify_all();
+        drop(g);
+        std::thread::yield_now();
+        Ok(k)
+    }
+    fn flush(&mut self) -> io::Result<()> {
+        Ok(())
+    }
+}
+impl Drop for TWriter {
+    fn drop(&mut self) {
+        let mut g = self.0.buf.lock().unwrap();
+        g.1 = true;
+        self.0.cv.notify_all();
+    }
+}
+impl io::Read for TReader {
+    fn read(&mut self, b: &mut [u8]) -> io::Result<usize> {
+        let mut g = self.0.buf.lock().unwrap();
+        while g.0.is_empty() && !g.1 {
+            g = self.0.cv.wait(g).unwrap();
+        }
+        if g.0.is_empty() {
+            return Ok(0);
+        }
+        let lim = if self.1.is_empty() { b.len() } else { self.1[self.2 % self.1.len()].max(1) };
+        self.2 += 1;
+        let k = b.len().min(g.0.len()).min(lim);
+        for x in b[..k].iter_mut() {
+            *x = g.0.pop_front().unwrap();
+        }
+        self.0.cv.notify_all();
+        drop(g);
+        std::thread::yield_now();
+        Ok(k)
+    }
+}
+
+pub fn run_threaded<M: Shape + ?Sized>(c: &IoCase) -> IoTrace {
+    let pipe = Arc::new(TPipe { buf: std::sync::Mutex::new((Default::default(), false)), cv: std::sync::Condvar::new(), cap: c.capacity.max(1) });
+    let (p1, p2) = (pipe.clone(), pipe);
+    let msgs = c.msgs.clone();
+    let (max, wch, rch) = (c.max_msg_len, c.wchunks.clone(), c.rchunks.clone());
+    let max_recvs = c.max_recvs;
+    let sender = std::thread::spawn(move || {
+        let mut sends = Vec::new();
+        let mut sender = Sender::<M, _>::io(TWriter(p1, wch, 0), max);
+        for (v, style) in &msgs {
+            let guard = sender.alloc().unwrap();
+            let res = match M::with_emp(v, *style, BGuardK(guard)) {
+                Err(e) => Err(format!("emplace: {:?}", e)),
+                Ok(g) => g.send().map_err(|e| format!("io: {:?}", e.kind())),
+            };
+            sends.push(res);
+        }
+        sends
+    });
+    let receiver = std::thread::spawn(move || {
+        let mut events = Vec::new();
+        let mut receiver = Receiver::<M, _>::io(TReader(p2, rch, 0), max);
+        for _ in 0..max_recvs {
+            match receiver.recv() {
+                Ok(guard) => {
+                    let window = guard_window(&*guard);
+                    events.push(observe::<M>(&*guard, window));
+                }
+                Err(RecvError::Closed) => {
+                    events.push(RecvEvent::Closed);
+                    break;
+                }
+                Err(RecvError::Parse(e)) => {
+                    events.push(RecvEvent::Parse(format!("{:?}@{}", e.kind, e.pos)));
+                    break;
+                }
+                Err(RecvError::Read(e)) => {
+                    events.push(RecvEvent::Read(format!("{:?}", e.kind())));
+                    break;
+                }
+            }
+        }
+        events
+    });
+    let mut t = IoTrace::default();
+    match sender.join() {
+        Ok(s) => t.sends = s,
+        Err(_) => t.send_panic = Some("sender thread panicked".into()),
+    }
+    match receiver.join() {
+        Ok(e) => t.recvs = e,
+        Err(_) => t.recvs.push(RecvEvent::Panic("receiver thread panicked".into())),
+    }
+    t
+}
+
+pub struct IoVT {
+    pub blocking: fn(&IoCase) -> IoTrace,
+    pub async_: fn(&IoCase) -> IoTrace,
+    pub threaded: fn(&IoCase) -> IoTrace,
+}
 
 pub fn io_vt<T: Shape + ?Sized>() -> IoVT {
-    IoVT {}
+    IoVT { blocking: run_blocking::<T>, async_: run_async::<T>, threaded: run_threaded::<T> }
 }
